@@ -59,28 +59,43 @@ Fixpoint pre_next (fuel : nat) (st : nstate) : option (N * nstate) :=
 
 Definition NEXT_FUEL : nat := 200.
 
-(* collect up to `n` items *)
-Fixpoint run_iter {S A} (next : S -> option (A * S)) (n : nat) (st : S) : list A :=
-  match n with
-  | O => []
-  | S k => match next st with
-           | None => []
-           | Some (a, st') => a :: run_iter next k st'
-           end
+(* Generic loop with lazily exponential fuel: loop2 d runs `step` up to 2^d times and stops at the
+   first `inr`.  With d = 64 no loop of the crate can exhaust it; unlike a unary `nat` bound it costs
+   nothing to pass around (the model runs trees of 2^40 bytes). *)
+Fixpoint loop2 {S R : Type} (d : nat) (step : S -> S + R) (s : S) : S + R :=
+  match d with
+  | O => step s
+  | S d' => match loop2 d' step s with
+            | inl s' => loop2 d' step s'
+            | inr r => inr r
+            end
+  end.
+Definition LOOP_DEPTH : nat := 64.
+
+(* collect all items of an iterator *)
+Definition run_iter {S A} (next : S -> option (A * S)) (st : S) : list A :=
+  match loop2 LOOP_DEPTH
+          (fun sa : S * list A =>
+             match next (fst sa) with
+             | None => inr (rev (snd sa))
+             | Some (a, st') => inl (st', a :: snd sa)
+             end) (st, []) with
+  | inr l => l
+  | inl sa => rev (snd sa)
   end.
 
-Definition post_order_nodes_shifted (root len : N) (n : nat) : list N :=
-  run_iter (post_next NEXT_FUEL) n (niter_new root len).
-Definition pre_order_nodes_shifted (root len : N) (n : nat) : list N :=
-  run_iter (pre_next NEXT_FUEL) n (niter_new root len).
+Definition post_order_nodes_shifted (root len : N) : list N :=
+  run_iter (post_next NEXT_FUEL) (niter_new root len).
+Definition pre_order_nodes_shifted (root len : N) : list N :=
+  run_iter (pre_next NEXT_FUEL) (niter_new root len).
 
-(* BaoTree::post_order_nodes_iter / pre_order_nodes_iter; bound = number of nodes + 1 *)
+(* BaoTree::post_order_nodes_iter / pre_order_nodes_iter *)
 Definition post_order_nodes_iter (t : tree) : list N :=
   let '(root, len) := shifted t in
-  map (fun x => subtract_block_size x (tbs t)) (post_order_nodes_shifted root len (S (N.to_nat len))).
+  map (fun x => subtract_block_size x (tbs t)) (post_order_nodes_shifted root len).
 Definition pre_order_nodes_iter (t : tree) : list N :=
   let '(root, len) := shifted t in
-  map (fun x => subtract_block_size x (tbs t)) (pre_order_nodes_shifted root len (S (N.to_nat len))).
+  map (fun x => subtract_block_size x (tbs t)) (pre_order_nodes_shifted root len).
 
 (* ---- BaoChunk ---- *)
 Inductive chunk :=
@@ -128,9 +143,9 @@ Fixpoint poc_next (fuel : nat) (st : pocstate) : option (chunk * pocstate) :=
     end
   end.
 
-(* the whole plan; bound = 2*blocks + 2 items *)
+(* the whole plan *)
 Definition post_order_chunks_iter (t : tree) : list chunk :=
-  run_iter (poc_next 4) (N.to_nat (2 * blocks t + 2)) (poc_new t).
+  run_iter (poc_next 4) (poc_new t).
 
 (* ---- PreOrderPartialChunkIterRef (src/iter.rs:492-644) ---- *)
 Record ppstate := mkPP {
@@ -141,7 +156,7 @@ Record ppstate := mkPP {
 
 Definition pp_new (t : tree) (r : ranges) (min_full_level : N) : ppstate :=
   let '(root, filled) := shifted t in
-  mkPP t min_full_level [(root, r)] filled root [].
+  mkPP t min_full_level (if r_is_empty r then [] else [(root, r)]) filled root [].
 
 (* result: None = exhausted; Some None = a panic inside next (unwrap on None); Some (Some ..) = item *)
 Definition pp_next (st : ppstate) : option (option (chunk * ppstate)) :=
@@ -195,9 +210,8 @@ Definition pp_next (st : ppstate) : option (option (chunk * ppstate)) :=
 Definition pp_next' (st : ppstate) : option (chunk * ppstate) :=
   match pp_next st with Some (Some x) => Some x | _ => None end.
 
-(* run with an explicit item bound *)
-Definition pre_order_chunks_iter (t : tree) (r : ranges) (min_level : N) (bound : nat) : list chunk :=
-  run_iter pp_next' bound (pp_new t r min_level).
+Definition pre_order_chunks_iter (t : tree) (r : ranges) (min_level : N) : list chunk :=
+  run_iter pp_next' (pp_new t r min_level).
 
 (* ResponseIterRef::new(tree, ranges): block size 0 tree, min_full_level = bs *)
 Definition response_new (t : tree) (r : ranges) : ppstate :=
@@ -208,8 +222,5 @@ Definition response_next (st : ppstate) : option (chunk * ppstate) :=
   | Some (c, st') => Some (without_ranges c, st')
   | None => None
   end.
-Definition response_iter (t : tree) (r : ranges) (bound : nat) : list chunk :=
-  run_iter response_next bound (response_new t r).
-
-(* item bound for a plan over a tree: every node and chunk at most once *)
-Definition plan_bound (t : tree) : nat := N.to_nat (4 * chunks (tsize t) + 8).
+Definition response_iter (t : tree) (r : ranges) : list chunk :=
+  run_iter response_next (response_new t r).
